@@ -148,6 +148,24 @@ func seekEndBody(n datamodel.Node) func() string {
 	}
 }
 
+// c17HandFile: a file whose interior nodes record no BlockSizes, so that the
+// reader has to open dag-pb children to learn their size (a code path both
+// writers of this repository never exercise).
+func c17HandFile() *c17Inst {
+	spec, ok := gen.HandByLabel("hand 2x2 leaves=pbfile blocksizes=none filesize=true")
+	if !ok {
+		panic("hand-written DAG family changed")
+	}
+	s := store.New()
+	root, _ := spec.Build(s)
+	ls := lsFor(s)
+	rn, err := loadRoot(ls, root)
+	if err != nil {
+		panic(err)
+	}
+	return &c17Inst{s: s, ls: ls, root: root, rootN: rn, via: "unixfs"}
+}
+
 func c17Scenarios(quick bool) []c17Scenario {
 	// a stateless search without partial-order reduction cannot finish the
 	// unbounded space (600k executions were not enough for 2 threads with 45
@@ -194,6 +212,14 @@ func c17Scenarios(quick bool) []c17Scenario {
 		{Name: "S5b-file-readers-and-seek-end", Threads: 3, Bounds: b3small, setup: c17File,
 			bodies: func(i *c17Inst, n datamodel.Node) []func() string {
 				return []func() string{readAllBody(n, 4), seekEndBody(n), seekEndBody(n)}
+			}},
+		{Name: "S7-unsized-file-two-readers", Threads: 2, Bounds: b2, setup: c17HandFile,
+			bodies: func(i *c17Inst, n datamodel.Node) []func() string {
+				return []func() string{readAllBody(n, 4), readAllBody(n, 3)}
+			}},
+		{Name: "S7b-unsized-file-reader-and-seek-end", Threads: 3, Bounds: b3small, setup: c17HandFile,
+			bodies: func(i *c17Inst, n datamodel.Node) []func() string {
+				return []func() string{readAllBody(n, 5), seekEndBody(n), readAllBody(n, 2)}
 			}},
 		{Name: "S6-preloaded-file-two-readers", Threads: 2, Bounds: b2, setup: func() *c17Inst { i := c17File(); i.via = "unixfs-preload"; return i },
 			bodies: func(i *c17Inst, n datamodel.Node) []func() string {
@@ -317,6 +343,8 @@ func runC17(r *core.Run) {
 			return func(sig, detail string) { r.Violate(sig, detail, c17Replay{sc.Name, append([]int{}, choices...)}) }
 		}
 		for _, bound := range sc.Bounds {
+			// lets the supervising parent say where an unrecoverable crash happened
+			fmt.Fprintf(os.Stderr, "BREADCRUMB C17 scenario %s preemption bound %d\n", sc.Name, bound)
 			restarts := 0
 		again:
 			ex := &xplore.Explorer{Bound: bound, Horizon: 20000, Replay: 2, MaxExecs: 600000, OnDiverge: func(ch []int, a, b string) {
